@@ -20,6 +20,7 @@ type Step struct {
 	Guards []string // presence guards (sorted): Has(X), case:X, EncodingMask==X, loop
 	Pos    token.Pos
 	Width  int // byte width when the primitive has a fixed one, else 0
+	Callee string // for Delegate steps: the method called
 }
 
 func (s Step) String() string {
@@ -45,7 +46,18 @@ type extractor struct {
 	steps   []Step
 	decode  bool
 	bufType func(types.Type) bool
+	depth   int
 }
+
+// Resolve, when set, maps a method object to its declaration and the type info of its package; Script then inlines
+// private helper methods of the codec's own receiver that take the buffer.
+var Resolve func(f *types.Func) (*ast.FuncDecl, *types.Info)
+
+// Inline switches the inlining of private helper methods on (off: such calls are Delegate steps).
+var Inline bool
+
+// InlineOnly, when non-nil, restricts inlining to the named helper methods.
+var InlineOnly map[string]bool
 
 // Script extracts the wire script of a Decode (decode=true) or Encode method.
 func Script(fd *ast.FuncDecl, info *types.Info, isBuffer func(types.Type) bool, decode bool) []Step {
@@ -269,10 +281,40 @@ func (ex *extractor) expr(e ast.Expr, lhs ast.Expr, guards []string) {
 			return false
 		}
 		// delegation: a method of the receiver that takes the primary buffer
-		for _, a := range call.Args {
+		for ai, a := range call.Args {
 			if id, ok := a.(*ast.Ident); ok && ex.bufVar != nil && ex.info.ObjectOf(id) == ex.bufVar {
+				// a private helper of the same receiver (part of this codec moved into a method): its steps are
+				// this codec's steps
+				if Resolve != nil && Inline && ex.depth < 2 {
+					if fobj, isF := ex.info.Uses[sel.Sel].(*types.Func); isF && !fobj.Exported() && (InlineOnly == nil || InlineOnly[fobj.Name()]) {
+						if rx, isRecv := sel.X.(*ast.Ident); isRecv && rx.Name == ex.recv {
+							if fd2, info2 := Resolve(fobj); fd2 != nil && fd2.Body != nil && fd2.Type.Params != nil {
+								// the helper's buffer parameter
+								var bufObj types.Object
+								k := 0
+								for _, fl := range fd2.Type.Params.List {
+									for _, nm := range fl.Names {
+										if k == ai {
+											bufObj = info2.ObjectOf(nm)
+										}
+										k++
+									}
+								}
+								if bufObj != nil {
+									sub := &extractor{info: info2, decode: ex.decode, bufType: ex.bufType, bufVar: bufObj, depth: ex.depth + 1}
+									if fd2.Recv != nil && len(fd2.Recv.List) > 0 && len(fd2.Recv.List[0].Names) > 0 {
+										sub.recv = fd2.Recv.List[0].Names[0].Name
+									}
+									sub.block(fd2.Body.List, guards)
+									ex.steps = append(ex.steps, sub.steps...)
+									return false
+								}
+							}
+						}
+					}
+				}
 				f := "value"
-				ex.steps = append(ex.steps, Step{Prim: "Delegate", Field: f, Guards: cleanGuards(guards), Pos: call.Pos()})
+				ex.steps = append(ex.steps, Step{Prim: "Delegate", Field: f, Guards: cleanGuards(guards), Pos: call.Pos(), Callee: sel.Sel.Name})
 				return false
 			}
 		}
@@ -495,10 +537,27 @@ func sameGuards(a, b []string) bool {
 	if strings.Join(na, "&") != strings.Join(nb, "&") {
 		return false
 	}
-	if len(ae) > 0 && len(be) > 0 {
-		sort.Strings(ae)
-		sort.Strings(be)
-		return strings.Join(ae, "&") == strings.Join(be, "&")
+	// early guards that were matched against a strict guard of the sibling are settled; the rest is compared only
+	// when both siblings still carry some
+	rest := func(early, otherStrict []string) []string {
+		var out []string
+		for _, e := range early {
+			matched := false
+			for _, o := range otherStrict {
+				if o == e {
+					matched = true
+				}
+			}
+			if !matched {
+				out = append(out, e)
+			}
+		}
+		sort.Strings(out)
+		return out
+	}
+	ra, rb := rest(ae, bs), rest(be, as)
+	if len(ra) > 0 && len(rb) > 0 {
+		return strings.Join(ra, "&") == strings.Join(rb, "&")
 	}
 	return true
 }
